@@ -18,7 +18,8 @@ RULE = ("complete enumeration of model descriptions: attrs/trigger/non-trigger/p
         "absent or any subset of {a,b,c} (9^5), any_inputs in {absent,False,True}, 3 types, against parse_attrs; "
         "complete operator table of finite/co-finite sets over {a,b,c}+fresh for -,&,| (both operand orders), in, "
         "==; Hypothesis-generated set expression trees; sampled descriptions end-to-end through World.start and "
-        "connect. Oracle: brute-force constraint solver on bitmasks. non-trivial = >= 2 of the five lists given "
+        "connect, simulators with several models, and one simulator class with a shared module-level description "
+        "started several times with different types in one process. Oracle: brute-force constraint solver on bitmasks. non-trivial = >= 2 of the five lists given "
         "(descriptions) / an OutSet operand (algebra); distinct = distinct enumerated tuples")
 ASSUMPTIONS = [
     "universe of three attribute names plus one fresh name standing for any other (the code is name-agnostic)",
@@ -318,8 +319,53 @@ def check_e2e_multi(typ, descs):
         close_world(w)
 
 
+def check_e2e_restart(types, descs):
+    """one simulator class with a module-level meta, started several times (possibly with different types) in one
+    process: every start is classified from the description as the simulator wrote it and its own type, and the
+    simulator's own description is not changed by mosaik"""
+    import copy
+    from mvf import simple_sim
+    from mvf.simple_sim import quiet_world, close_world
+    case = {"kind": "e2e_restart", "types": types, "descs": descs}
+    simple_sim.SHARED_META["models"] = {f"M{i}": copy.deepcopy(d) for i, d in enumerate(descs)}
+    simple_sim.SHARED_META["type"] = "time-based"
+    w = quiet_world()
+    try:
+        for n, typ in enumerate(types):
+            wants = []
+            for d in descs:
+                g = lambda k, d=d: tuple(d[k]) if k in d else None  # noqa
+                wants.append(expected(g("attrs"), g("trigger"), g("non-trigger"), g("persistent"), g("non-persistent"),
+                                      d.get("any_inputs"), typ))
+            try:
+                f = w.start("Shared", sim_id=f"S{n}", sim_type=typ)
+            except ValueError:
+                if any(x is None for x in wants):
+                    continue
+                return [Failure("C12.rejected_consistent", "C12.rejected_consistent|e2e_restart",
+                                f"start #{n} ({typ}) rejected {case}", case)]
+            except Exception as e:  # noqa
+                return [Failure("C12.crash", "C12.crash|e2e_restart", f"start #{n}: {type(e).__name__}: {e}; {case}", case)]
+            if any(x is None for x in wants):
+                return [Failure("C12.accepted_inconsistent", "C12.accepted_inconsistent|e2e_restart",
+                                f"start #{n} ({typ}) must be rejected; {case}", case)]
+            for i, want in enumerate(wants):
+                mm = f.models[f"M{i}"]
+                gm = (members(mm.measurement_inputs), members(mm.event_inputs),
+                      members(mm.measurement_outputs), members(mm.event_outputs))
+                if gm != want:
+                    return [Failure("C12.wrong_classification", "C12.wrong_classification|e2e_restart",
+                                    f"start #{n} ({typ}) model M{i}: {gm} != {want}; {case}", case)]
+        return []
+    finally:
+        close_world(w)
+        simple_sim.SHARED_META["models"] = {}
+
+
 def check_case(case, acc):
     k = case["kind"]
+    if k == "e2e_restart":
+        return acc.triage(check_e2e_restart(case["types"], case["descs"]))
     if k == "e2e_multi":
         return acc.triage(check_e2e_multi(case["type"], case["descs"]))
     if k == "desc":
@@ -444,6 +490,17 @@ def shard(prop, tier, seed, shard, nshards):
         return {"kind": "e2e_multi", "type": base["type"], "descs": descs}
 
     core.drive(e2e_multi(), hcheck, acc, ne2e, seed * 1000 + 700 + shard)
+
+    @st.composite
+    def e2e_restart(draw):
+        base = draw(st.one_of(e2e(), st.just({"desc": {"public": True, "params": [], "attrs": ["a", "b"]}})))
+        descs = [base["desc"]]
+        if draw(st.booleans()):
+            descs.append(draw(e2e())["desc"])
+        types = draw(st.lists(st.sampled_from(TYPES), min_size=2, max_size=3))
+        return {"kind": "e2e_restart", "types": types, "descs": descs}
+
+    core.drive(e2e_restart(), hcheck, acc, ne2e, seed * 1000 + 900 + shard)
     return acc
 
 
